@@ -324,7 +324,12 @@ impl<'t, D: Distance> Reader<'t, D> {
                     }
                 }
                 Node::SplitPlaneNormal(SplitPlaneNormal { normal, left, right }) => {
-                    let margin = D::margin_no_header(&normal, &query_leaf.vector);
+                    // a zeroed normal marks a random split: it must not steer the query
+                    let margin = if normal.is_zero() {
+                        0.0
+                    } else {
+                        D::margin_no_header(&normal, &query_leaf.vector)
+                    };
                     queue.push((OrderedFloat(D::pq_distance(dist, margin, Side::Left)), left));
                     queue.push((OrderedFloat(D::pq_distance(dist, margin, Side::Right)), right));
                 }
